@@ -5,6 +5,8 @@ CONSTANTS
   ReadDrops <- MC_Drops
   ReReadKeys <- MC_ReRead2
   InsertNewTagStoresChars = FALSE
+  ShallowCopy = FALSE
+  SrcSteps = 0
   Emit = TRUE
 SPECIFICATION Spec
 INVARIANT TypeOK
